@@ -189,8 +189,9 @@ class C13(Prop):
                     "digest:pos", "digest:neg", "digest:errors", "digest:empty", "autophagy:some", "autophagy:none",
                     "autophagy:raises-on-aware-timestamp", "set:maxq", "set:thr", "set:ret", "set:ontox"]
     assumptions = [
-        "digesters and the on_toxic callback return a dict / None or raise an Exception; they do not call back into "
-        "the lysosome and do not raise BaseException",
+        "digesters and the on_toxic callback return a dict / None / a falsy value / a list of pairs or raise an Exception "
+        "whose message can be formatted (str(e) returns); they do not call back into the lysosome and do not raise "
+        "BaseException",
         "threading.Lock / RLock semantics as in Operon.Lysosome.Step; loops over the queue are finite",
         "thread switches happen between source lines (the scheduler search is line-granular); `x += 1` on a counter "
         "outside the lock is treated as one atomic line",
@@ -205,7 +206,9 @@ class C13(Prop):
         "run (harness/vf/extract/py2lean_lysosome.py -> Operon/Gen/LysosomeTranslated.lean) and proved equal to "
         "Operon.Lysosome.step (c13_translation_agrees_*, c13_translated_history_agrees); trusted: the translator's "
         "reading of the Python subset it accepts, the other built-in digesters (differential correspondence only); "
-        "lock shapes by extractor E3 (harness/vf/extract/e3_lysosome.py)"]
+        "lock shapes by extractor E3 (harness/vf/extract/e3_lysosome.py); what the library's own client "
+        "(AutophagyDaemon.check_and_prune) does to a shared lysosome is measured on the real code on every run "
+        "(harness/vf/extract/e3_lysosome_clients.py -> Operon/Gen/LysosomeClients.lean, c13_daemon_feeds_one_plain_item_table)"]
 
     # ------------------------------------------------------------------------------------------------------
     def setup(self, ctx):
